@@ -124,6 +124,47 @@ def canon_stream(events):
     return out
 
 
+def match_edges(w, r):
+    """does the canonical stream `w` equal the reference stream `r` in which every character
+    preceded by G.OPT is optional (white space at the edges of message directives)"""
+    import re
+    if w[0] != 'ok' or r[0] != 'ok':
+        return w == r
+    toks = {}
+
+    def tok(e):
+        key = json.dumps(e, sort_keys=True)
+        if key not in toks:
+            toks[key] = chr(0xF0000 + len(toks))
+        return toks[key]
+
+    def enc(stream, pattern):
+        out = []
+        for e in stream:
+            if e[0] == 'T':
+                text = e[1]
+                i = 0
+                while i < len(text):
+                    c = text[i]
+                    if pattern and c == G.OPT and i + 1 < len(text):
+                        out.append(re.escape(text[i + 1]) + '?')
+                        i += 2
+                        continue
+                    out.append(re.escape(c) if pattern else c)
+                    i += 1
+            else:
+                t = tok(e)
+                out.append(re.escape(t) if pattern else t)
+        return ''.join(out)
+    pat = enc(r[1], True)
+    return re.fullmatch(pat, enc(w[1], False), re.S) is not None
+
+
+DIR_ATTRS = set(['i18n:msg', 'i18n:choose', 'i18n:singular', 'i18n:plural', 'i18n:domain', 'i18n:ctxt', 'i18n:comment',
+                 'py:if', 'py:for', 'py:strip'])
+DIR_ELEMS = set(['i18n:msg', 'i18n:choose', 'i18n:singular', 'i18n:plural', 'i18n:domain', 'i18n:ctxt', 'py:if'])
+
+
 def cfg_args(cfg):
     from genshi.core import QName
     return dict(ignore_tags=frozenset(QName(t) for t in cfg['ignore_tags']),
@@ -328,9 +369,12 @@ def msg_text_parents(tree):
 def valid_case(case):
     """is this a well-formed case (the shrinker also produces garbage): the tree has the node
     shapes of gen_i18n and its source parses as a template"""
+    import re
+    expr_ok = re.compile(r"^(s[123]|f[12]|n[12]|l1|it|_\('\w+'\)|ngettext\('\w+', '\w+', n[12]\))$")
+
     def ok_parts(ps):
         return isinstance(ps, list) and all(isinstance(p, list) and len(p) == 2 and p[0] in ('t', 'x')
-                                            and isinstance(p[1], str) and (p[0] == 't' or p[1]) for p in ps)
+                                            and isinstance(p[1], str) and (p[0] == 't' or expr_ok.match(p[1])) for p in ps)
 
     def ok(n):
         if not isinstance(n, list) or not n:
@@ -339,15 +383,17 @@ def valid_case(case):
         if k in ('t', 'c'):
             return len(n) == 2 and isinstance(n[1], str)
         if k == 'x':
-            return len(n) == 2 and isinstance(n[1], str) and bool(n[1])
+            return len(n) == 2 and isinstance(n[1], str) and bool(expr_ok.match(n[1]))
         if k == 'e':
             return (len(n) == 5 and isinstance(n[1], str) and bool(n[1]) and isinstance(n[2], list)
-                    and all(isinstance(a, list) and len(a) == 2 and isinstance(a[0], str) and a[0] and ok_parts(a[1]) for a in n[2])
-                    and isinstance(n[3], list) and all(isinstance(d, list) and len(d) == 2 and isinstance(d[0], str)
-                                                       and ':' in d[0] and isinstance(d[1], str) for d in n[3])
+                    and all(isinstance(a, list) and len(a) == 2 and isinstance(a[0], str)
+                            and re.match(r'^(xml:)?[a-z][a-z-]*$', a[0]) and ok_parts(a[1]) for a in n[2])
+                    and n[1].isalnum() and n[1][0].isalpha()
+                    and isinstance(n[3], list) and all(isinstance(d, list) and len(d) == 2 and d[0] in DIR_ATTRS
+                                                       and isinstance(d[1], str) for d in n[3])
                     and isinstance(n[4], list) and all(ok(c) for c in n[4]))
         if k == 'd':
-            return (len(n) == 4 and isinstance(n[1], str) and ':' in n[1] and isinstance(n[2], list)
+            return (len(n) == 4 and n[1] in DIR_ELEMS and isinstance(n[2], list)
                     and all(isinstance(a, list) and len(a) == 2 and isinstance(a[0], str) and a[0] and isinstance(a[1], str) for a in n[2])
                     and isinstance(n[3], list) and all(ok(c) for c in n[3]))
         return False
@@ -364,7 +410,7 @@ def valid_case(case):
             if v not in case.get('data', {}):
                 return False
         from genshi.template import MarkupTemplate
-        MarkupTemplate(G.source(case['tmpl']))
+        MarkupTemplate(G.source(case['tmpl'])).stream
         return True
     except Exception:  # noqa
         return False
@@ -390,8 +436,9 @@ def oracle_case(case):
         bad('the reference template renders (harness self-check)', 'a stream', r)
     checks = case.get('checks', ['identity', 'lookups', 'placeholders', 'excluded'])
     if kind == 'id':
-        if 'identity' in checks and w != r:
-            bad('identity catalogue: output equals the output without the filter (message edges trimmed)', _clip(r), _clip(w))
+        if 'identity' in checks and not match_edges(w, r):
+            bad('identity catalogue: output equals the output without the filter up to white space at the edges of messages '
+                '(optional characters are preceded by U+E000 in the expected stream)', _clip(r), _clip(w))
         if w[0] == 'ok' and 'lookups' in checks:
             try:
                 ids, raw = extract_ids(case)
@@ -408,6 +455,8 @@ def oracle_case(case):
                 _clip(r), _clip(w))
     if kind != 'id' and 'excluded' in checks and w[0] == 'ok':
         r0 = gen_ref(_plain(case), G.cat_identity, identity=True, code_f=f)
+        if r0[0] == 'ok':
+            r0 = ['ok', [[e[0], e[1].replace(G.OPT, '')] + e[2:] if e[0] == 'T' else e for e in r0[1]]]
         if r0[0] == 'ok':
             e = check_excluded(case, w[1], r0[1])
             if e:
@@ -907,4 +956,10 @@ def search(ctx, res, broken):
 
 
 def replay(ctx, case):
-    return oracle_case(case)
+    """the oracle on one case; a case whose reference template does not render is not an input
+    of the property (the shrinker produces such cases) - only the generation loop reports
+    that as a harness self-check failure"""
+    f = oracle_case(case)
+    if f and f.get('what', '').startswith('the reference template renders'):
+        return None
+    return f
